@@ -76,7 +76,7 @@ structure ChanInv (ch : Chan) : Prop where
   unb_hist : ch.cap = 0 → ch.sent = ch.recvd
   unb_armed : ch.cap = 0 → ch.getp = hasRecv → ch.slot.isSome
 
-theorem newChan_inv (cap : Nat) : ChanInv (newChan cap) := by
+theorem newChan_inv (cfg : Cfg) (cap : Nat) : ChanInv (newChan cfg cap) := by
   constructor <;> simp [newChan, Chan.contents, ringFrom, hasRecv]
 
 theorem push_inv {ch : Chan} (h : ChanInv ch) (hcap : ch.cap ≠ 0) (hlt : ch.len ≠ ch.cap) (v : Val) :
@@ -190,8 +190,9 @@ theorem recvLoop_inv {ch : Chan} (h : ChanInv ch) (c : Cid) (tg : Target) : Chan
     · rename_i hlen
       exact pop_inv h hcap hlen
 
-theorem recv2Loop_inv {ch : Chan} (h : ChanInv ch) (c : Cid) (b : Bool) : ChanInv (recv2Loop ch c b).ch := by
-  unfold recv2Loop; split <;> exact h
+theorem recv2Loop_inv {ch : Chan} (h : ChanInv ch) (c : Cid) (b : Bool) (seq : Nat) :
+    ChanInv (recv2Loop ch c b seq).ch := by
+  unfold recv2Loop; split <;> (split <;> exact h)
 
 theorem closeBody_inv {ch : Chan} (h : ChanInv ch) : ChanInv (closeBody ch).ch := by
   unfold closeBody; split
@@ -250,8 +251,8 @@ theorem body_inv {ch : Chan} (h : ChanInv ch) (p : Point) (t : Tid) : ChanInv (b
   · exact recvLoop_inv h _ _
   · exact recvLoop_inv h _ _
   · exact recvLoop_inv h _ _
-  · exact recv2Loop_inv h _ _
-  · exact recv2Loop_inv h _ _
+  · exact recv2Loop_inv h _ _ _
+  · exact recv2Loop_inv h _ _ _
   · exact closeBody_inv h
   · exact trySendBody_inv h _
   · exact tryRecvBody_inv h _ _
@@ -338,12 +339,12 @@ theorem exec_ginv {s : State} (h : GInv s) (t : Tid) : GInv (exec s t) := by
   · intro c; unfold State.chan; rw [he]
     exact getD_set_all ChanInv s.chans dfltChan _ p.chan h (body_inv (h p.chan) p t) c
 
-theorem init_ginv (caps : List Nat) (progs : List (List Op)) : GInv (init caps progs) := by
+theorem init_ginv (cfg : Cfg) (caps : List Nat) (progs : List (List Op)) : GInv (init cfg caps progs) := by
   intro c
   simp only [State.chan, init, List.getD, List.getElem?_map]
   cases caps[c]? with
-  | none => exact newChan_inv 0
-  | some cap => exact newChan_inv cap
+  | none => exact newChan_inv Cfg.current 0
+  | some cap => exact newChan_inv cfg cap
 
 /-- reachability under every scheduler choice (steps of runnable threads and spurious wake-ups) -/
 inductive Reachable (s0 : State) : State → Prop
@@ -363,10 +364,10 @@ theorem apply_ginv {s s' : State} (h : GInv s) (ch : Choice) (hs : apply s ch = 
     · cases hs; exact h
     · cases hs
 
-theorem reachable_ginv {caps : List Nat} {progs : List (List Op)} {s : State}
-    (h : Reachable (init caps progs) s) : GInv s := by
+theorem reachable_ginv {cfg : Cfg} {caps : List Nat} {progs : List (List Op)} {s : State}
+    (h : Reachable (init cfg caps progs) s) : GInv s := by
   induction h with
-  | init => exact init_ginv caps progs
+  | init => exact init_ginv cfg caps progs
   | next ch _ hs ih => exact apply_ginv ih ch hs
 
 /-- running a schedule from a reachable state stays reachable -/
